@@ -86,5 +86,6 @@ theorem procMnt_exists (s s' : St) (c : Ctx) (args : Bytes) (fhb : Bytes) (auth 
           obtain ⟨_, hm⟩ := (lookupPath_sound (s' := s1) hc).1 node hl
           exact ⟨raw, r, node.attrs, hraw, hm⟩
 
+
 end Server
 end Absnfs
